@@ -3,5 +3,6 @@ CONSTANTS
   A = 10
   Depth = 0
   Mode = "F"
+  Fixed = FALSE
 POSTCONDITION TraceAccepted
 CHECK_DEADLOCK FALSE
